@@ -3,6 +3,7 @@ package interp
 import (
 	"fmt"
 	"go/types"
+	"os"
 	"runtime/debug"
 	"sort"
 	"strings"
@@ -66,8 +67,12 @@ func (ip *Interp) resetPath(w Work) {
 	ip.curFrame = nil
 	ip.violations = nil
 	ip.mapOrders = 0
+	ip.orderPolicy = -1
+	ip.deviated = false
 	ip.runeBytes = map[*sym.Term][]*sym.Term{}
 	ip.stubMemo = map[string]Str{}
+	ip.fs = newFS()
+	ip.parsed = nil
 }
 
 // RunPath executes the harness once along the path selected by prefix.
@@ -334,6 +339,11 @@ func registerVerifsym(ip *Interp) {
 		if !c.IsConst() && ip.evalBool(c) {
 			if ok, _ := ip.solveZ3(nc); !ok {
 				return nil // holds for every value on this path
+			}
+		}
+		if os.Getenv("GOSYM_DEBUG_OBS") != "" {
+			for _, o := range ip.observes {
+				fmt.Fprintf(os.Stderr, "OBS %s=%s\n", o.Label, ip.canon(o.V, ip.model))
 			}
 		}
 		ip.recordViolation("assert", msg, ip.stackString(), c)
